@@ -128,8 +128,10 @@ type Sidecar struct {
 	// Told is what the Prometheus of this shard was last told to scrape: the targets handed to the
 	// update callbacks (the injector's input) since this process started; nil until a callback ran
 	Told    map[string][]*target.Target
-	inj     *sidecar.Injector
-	withInj bool
+	// CallbackErr, when set, makes the update callbacks fail (Prometheus refusing the reload)
+	CallbackErr error
+	inj         *sidecar.Injector
+	withInj     bool
 }
 
 // NewSidecar builds a sidecar on a store directory. Load() is called like at process start.
@@ -163,6 +165,9 @@ func (s *Sidecar) start() error {
 	s.TM = sidecar.NewTargetsManager(s.Dir, prometheus.NewRegistry(), Quiet)
 	s.Told = nil
 	s.TM.AddUpdateCallbacks(func(ts map[string][]*target.Target) error {
+		if s.CallbackErr != nil {
+			return s.CallbackErr
+		}
 		cp := map[string][]*target.Target{}
 		for j, l := range ts {
 			cp[j] = append([]*target.Target{}, l...)
